@@ -278,17 +278,25 @@ def processList : St → List Conn → St × List Ev
 def processNew (s : St) : St × List Ev :=
   processList { s with newL := [] } s.newL.reverse
 
+/-- internal_add_connection after the first checks: prepare, then queue or process -/
+def admitConn (s : St) (c a : Nat) (verdict ext : Bool) : St × List Ev :=
+  let p := prepare s c a verdict
+  match p.2.1 with
+  | none => (p.1, p.2.2 ++ [.arrive c false])
+  | some cn =>
+    if ext && p.1.cfg.threadSafe then ({ p.1 with newL := cn :: p.1.newL }, p.2.2 ++ [.arrive c true])
+    else
+      let q := process p.1 cn
+      (q.1, p.2.2 ++ q.2.2 ++ [.arrive c q.2.1])
+
 /-- MHD_add_connection (`ext = true`) / MHD_accept_connection (`ext = false`) → internal_add_connection -/
 def arrive (s : St) (a : Nat) (verdict ext : Bool) : St × List Ev :=
   let c := s.nextId
   let s0 := { s with nextId := c + 1 }
-  let (s1, e0) := if ext && !s0.cfg.threadSafe && s0.cfg.limit ≤ s0.connections then cleanupAll s0 else (s0, [])
-  match prepare s1 c a verdict with
-  | (s2, none, e1) => (s2, e0 ++ e1 ++ [.arrive c false])
-  | (s2, some cn, e1) =>
-    if ext && s2.cfg.threadSafe then ({ s2 with newL := cn :: s2.newL }, e0 ++ e1 ++ [.arrive c true])
-    else match process s2 cn with
-      | (s3, ok, e2) => (s3, e0 ++ e1 ++ e2 ++ [.arrive c ok])
+  -- MHD_add_connection without thread safety: clean up first when at the limit
+  let r0 := if ext && !s0.cfg.threadSafe && s0.cfg.limit ≤ s0.connections then cleanupAll s0 else (s0, [])
+  let r1 := admitConn r0.1 c a verdict ext
+  (r1.1, r0.2 ++ r1.2)
 
 /-! ### suspend / resume / upgrade -/
 
@@ -393,11 +401,11 @@ def handlePass (s : St) : St × List Ev :=
 
 /-- one settled event-loop run: resume, new connections, handlers, cleanup -/
 def round (s : St) : St × List Ev :=
-  let (s1, e1) := if s.cfg.allowSuspend then resumePass s else (s, [])
-  let (s2, e2) := processNew s1
-  let (s3, e3) := handlePass s2
-  let (s4, e4) := cleanupAll s3
-  (s4, e1 ++ e2 ++ e3 ++ e4)
+  let r1 := if s.cfg.allowSuspend then resumePass s else (s, [])
+  let r2 := processNew r1.1
+  let r3 := handlePass r2.1
+  let r4 := cleanupAll r3.1
+  (r4.1, r1.2 ++ r2.2 ++ r3.2 ++ r4.2)
 
 /-! ### shutdown -/
 
@@ -422,21 +430,41 @@ def closeList : CAcc → List Conn → CAcc
 
 def markAppClosed (c : Conn) : Conn := { c with wasClosed := true, resuming := true }
 
+/-- the check for suspended connections in close_all_connections (MHD_PANIC) -/
+def stopPanics (s : St) : Bool :=
+  if s.cfg.allowUpgrade then s.susp.any (fun c => !c.urh) else !s.susp.isEmpty
+
+/-- close_all_connections: every "upgraded" connection is marked closed by the application -/
+def markUpgraded (s : St) : St :=
+  if s.cfg.allowUpgrade then { s with susp := s.susp.map markAppClosed } else s
+
+/-- `daemon->resuming = true; resume_suspended_connections (daemon)` under `flag` -/
+def forceResume (flag : Bool) (s : St) : St × List Ev :=
+  if flag then resumePass { s with resuming := true } else (s, [])
+
+/-- close_connection on every member of `connections`: all move to the cleanup list -/
+def closeActive (s : St) : St × List Ev :=
+  let acc := closeList { R := { tab := s.resps, fault := none }, moved := [], evs := [] } s.active.reverse
+  ({ s with resps := acc.R.tab, fault := mergeFault s.fault acc.R.fault, active := [],
+            cleanup := acc.moved ++ s.cleanup }, acc.evs)
+
+/-- close_all_connections after the suspended-connections check -/
+def stopTail (s : St) : St × List Ev :=
+  let r4 := forceResume s.cfg.allowUpgrade (markUpgraded s)
+  let r5 := closeActive r4.1
+  let r6 := cleanupAll r5.1
+  (r6.1, r4.2 ++ r5.2 ++ r6.2)
+
 /-- MHD_stop_daemon → close_all_connections (no internal threads) -/
 def stop (s : St) : St × List Ev :=
   let s0 := { s with shutdown := true }
-  let (s1, e1) := closeNewList { s0 with newL := [] } s0.newL.reverse
-  let (s2, e2) := if s1.cfg.allowSuspend then resumePass { s1 with resuming := true } else (s1, [])
-  if (if s2.cfg.allowUpgrade then s2.susp.any (fun c => !c.urh) else !s2.susp.isEmpty) then
-    ({ s2 with fault := mergeFault s2.fault (some .stopSuspended) }, e1 ++ e2 ++ [.panic .stopSuspended])
+  let r1 := closeNewList { s0 with newL := [] } s0.newL.reverse
+  let r2 := forceResume r1.1.cfg.allowSuspend r1.1
+  if stopPanics r2.1 then
+    ({ r2.1 with fault := mergeFault r2.1.fault (some .stopSuspended) }, r1.2 ++ r2.2 ++ [.panic .stopSuspended])
   else
-  let s3 := if s2.cfg.allowUpgrade then { s2 with susp := s2.susp.map markAppClosed } else s2
-  let (s4, e4) := if s3.cfg.allowUpgrade then resumePass { s3 with resuming := true } else (s3, [])
-  let acc := closeList { R := { tab := s4.resps, fault := none }, moved := [], evs := [] } s4.active.reverse
-  let s5 := { s4 with resps := acc.R.tab, fault := mergeFault s4.fault acc.R.fault, active := [],
-                      cleanup := acc.moved ++ s4.cleanup }
-  let (s6, e6) := cleanupAll s5
-  (s6, e1 ++ e2 ++ e4 ++ acc.evs ++ e6)
+    let r3 := stopTail r2.1
+    (r3.1, r1.2 ++ r2.2 ++ r3.2)
 
 /-! ### script-level operations -/
 
@@ -477,10 +505,10 @@ def Op.legal (s : St) : Op → Bool
   | .req c b =>
     !s.shutdown && (hasConn c idle s.newL || hasConn c idle s.active) &&
     (match b with | .suspend _ => s.cfg.allowSuspend | .reply _ _ => true)
-  | .clientClose _ => true
+  | .clientClose c => !hasConn c (fun x => !x.urh) s.susp   -- script restriction: not while plainly suspended
   | .hold _ => true
   | .drain _ => true
-  | .resume c => !s.shutdown && hasConn c (fun x => !x.urh) s.susp
+  | .resume c => !s.shutdown && hasConn c (fun x => !x.urh && !x.clientClosed) s.susp
   | .upClose c => !s.shutdown && hasConn c (fun x => x.urh && !x.wasClosed) s.susp
   | .round => !s.shutdown
   | .query => !s.shutdown
